@@ -50,9 +50,13 @@ int c_var2h(int nvalvar, int nvalh,
         fprintf(stdout, "\n\tprogression (percent)..\n\t");
     }
 
+    /* Nothing to compute */
+    if(nvalh<2)
+        return 0;
+
     /* Set first time step to be immediately before hstart */
     varindex = 0;
-    while(varsec[varindex]<=hstartsec) varindex++;
+    while(varindex<nvalvar && varsec[varindex]<=hstartsec) varindex++;
     varindex--;
 
     /* hstart is smaller than first value in varsec */
@@ -63,6 +67,10 @@ int c_var2h(int nvalvar, int nvalh,
                     "the first value in varsec\n");
         return VAR2H_ERROR + __LINE__;
     }
+
+    /* hstart is not smaller than the last value in varsec */
+    if(varindex+1>=nvalvar)
+        return VAR2H_ERROR + __LINE__;
 
     /* Initialisation */
     nan = zero/zero;
